@@ -394,8 +394,12 @@ class IndentationFitter(object):
         # modify contact point with gcf_k
         cp_init = params_initial["contact_point"]
         cp_expr = cp_init.expr
+        cp_min, cp_max = cp_init.min, cp_init.max
         if cp_expr is None:
-            cp_init.set(value=cp_init.value * self.fp["gcf_k"])
+            # (the bounds are given in measured units as well)
+            cp_init.set(value=cp_init.value * self.fp["gcf_k"],
+                        min=cp_min * self.fp["gcf_k"],
+                        max=cp_max * self.fp["gcf_k"])
         else:
             # The contact point is constrained by an expression (setting
             # a value would remove the constraint): scale the expression.
@@ -444,7 +448,7 @@ class IndentationFitter(object):
             cpf = fit.params["contact_point"].value
             if cp_expr is None:
                 fit.params["contact_point"].set(
-                    value=cpf / self.fp["gcf_k"])
+                    value=cpf / self.fp["gcf_k"], min=cp_min, max=cp_max)
             else:
                 # report the original constraint (in measured units)
                 fit.params["contact_point"].set(expr=cp_expr)
